@@ -173,7 +173,7 @@ func c11History(r *core.Run, ci int64) {
 	})
 	defer chpool.VerifSetHook(nil)
 
-	var openNow, maxOpen atomic.Int64
+	var openNow, maxOpen, okOps atomic.Int64
 	var sessCtr atomic.Int64
 	dialer := &simDialer{}
 	dialer.mk = func(i int) (*simnet.Conn, error) {
@@ -355,6 +355,7 @@ func c11History(r *core.Run, ci int64) {
 							addOp(porcupine.Operation{ClientId: w, Input: lockIn{0, sess}, Call: call, Output: conn, Return: ret})
 						}
 						sig = append(sig, "acquire")
+						okOps.Add(1)
 						for j := 0; j < wrng.Intn(3) && !closed; j++ {
 							b := []string{"OK", "OK", "EXC", "CUT", "CANCEL", "CBEXC"}[wrng.Intn(6)]
 							doQ(b)
@@ -381,12 +382,16 @@ func c11History(r *core.Run, ci int64) {
 					case op < 7:
 						qctx, qc := context.WithTimeout(ctx, 3*time.Second)
 						qid := fmt.Sprintf("s%d-h%d", int(sessCtr.Add(1)), w)
-						_ = pool.Do(qctx, ch.Query{Body: "OK", QueryID: qid, Settings: []ch.Setting{{Key: "log_comment", Value: qid, Important: true}}})
+						if pool.Do(qctx, ch.Query{Body: "OK", QueryID: qid, Settings: []ch.Setting{{Key: "log_comment", Value: qid, Important: true}}}) == nil {
+							okOps.Add(1)
+						}
 						qc()
 						sig = append(sig, "pool.Do")
 					case op < 8:
 						qctx, qc := context.WithTimeout(ctx, 3*time.Second)
-						_ = pool.Ping(qctx)
+						if pool.Ping(qctx) == nil {
+							okOps.Add(1)
+						}
 						qc()
 						sig = append(sig, "pool.Ping")
 					default: // release a stale handle again (possibly while somebody else holds that connection)
@@ -495,6 +500,14 @@ func c11History(r *core.Run, ci int64) {
 			break
 		}
 		lastSess[e.Conn] = e.Sess
+	}
+	// (c0) with a lifetime of 1 ns every release destroys: no connection may serve two acquisitions
+	// (handle sessions, Pool.Do and Pool.Ping alike), so there are at least as many dials as
+	// successful acquisitions
+	if class == "destroy-on-release" {
+		if d, n := int64(len(dialer.Conns())), okOps.Load(); d < n {
+			fail("expired-connection-reissued", fmt.Sprintf("MaxConnLifetime is 1ns, %d acquisitions (Acquire / Pool.Do / Pool.Ping) succeeded but only %d connections were dialed: a connection past its lifetime served a later holder", n, d))
+		}
 	}
 	// (c1) no holder was handed a connection whose transport the library had already closed
 	for _, e := range ev {
